@@ -5,6 +5,7 @@ import hashlib
 import json
 import os
 import re
+import shutil
 import subprocess
 import sys
 import time
@@ -163,6 +164,10 @@ def eval_cases(pid, tag, preamble, cases, check_fn, shard=400, timeout=900, scop
 
     `cases` are Coq terms (strings). Returns dict(failing=[indices], errors=[(shard, log)], wall)."""
     GEN.mkdir(exist_ok=True)
+    # one scratch directory per run (concurrent runs do not collide), removed when the evaluation is over
+    rundir = GEN / ("run_%s_%s_%d" % (pid, tag, os.getpid()))
+    shutil.rmtree(rundir, ignore_errors=True)
+    rundir.mkdir()
     files = []
     for si, lo in enumerate(range(0, len(cases), shard)):
         chunk = cases[lo:lo + shard]
@@ -172,14 +177,14 @@ def eval_cases(pid, tag, preamble, cases, check_fn, shard=400, timeout=900, scop
         body.append(";\n".join("  " + c for c in chunk))
         body.append("].")
         body.append("Eval vm_compute in (failing %s cases %d)." % (check_fn, lo))
-        (GEN / (name + ".v")).write_text("\n".join(body) + "\n")
-        files.append((si, lo, GEN / (name + ".v")))
+        (rundir / (name + ".v")).write_text("\n".join(body) + "\n")
+        files.append((si, lo, rundir / (name + ".v")))
     failing, errors = [], []
     t0 = time.time()
 
     def one(f):
         si, lo, path = f
-        rc, out, _ = coqc(path, timeout)
+        rc, out, _ = coqc(path, timeout, extra=("-noglob",))
         return si, lo, rc, out
 
     with ThreadPoolExecutor(max_workers=NCPU) as ex:
@@ -189,6 +194,7 @@ def eval_cases(pid, tag, preamble, cases, check_fn, shard=400, timeout=900, scop
                 errors.append((si, out[-3000:]))
                 continue
             failing.extend(_parse_zlist(m.group(1)))
+    shutil.rmtree(rundir, ignore_errors=True)
     return dict(failing=sorted(failing), errors=errors, wall=time.time() - t0, n=len(cases))
 
 
